@@ -237,6 +237,14 @@ def run_tamper_compact(c):
             h2[k] = v
         parts = list(segs); parts[0] = b64e(json.dumps(h2, separators=(",", ":")).encode())
         attempt(f"protected:set-{k}", parts)
+    # the boundary between ciphertext and tag moved: the same octets, split differently between the two segments
+    ct_raw, tag_raw = b64d(segs[3]), b64d(segs[4])
+    for k in (1, 4, 8, len(tag_raw)):
+        parts = list(segs); parts[3] = b64e(ct_raw + tag_raw[:k]); parts[4] = b64e(tag_raw[k:])
+        attempt(f"tag:boundary-shift-{k}", parts)
+    if len(ct_raw) > 2:
+        parts = list(segs); parts[3] = b64e(ct_raw[:-2]); parts[4] = b64e(ct_raw[-2:] + tag_raw)
+        attempt("tag:boundary-shift-back", parts)
     attempt("key:non-recipient", segs, ad_other)
     if alg == "dir" or alg.endswith("KW") and not alg.startswith(("RSA", "ECDH")):
         for n in (16, 24, 32, 48, 64):
